@@ -627,6 +627,13 @@ def check_totality(ctx, oid="C06.1"):
 
 def run(ctx):
     check_tables(ctx)
+    # no hidden state: the functions this property is about (and what they call) do not write module-level state, so a
+    # verdict cannot depend on the history of earlier calls
+    hs = rules.hidden_state(ctx.prog, [ctx.fn(q) for q in ("bits.utils.is_segwit_addr", "bits.utils.is_addr", "bits.utils.segwit_addr", "bits.utils.decode_segwit_addr", "bits.utils.to_bitcoin_address")])
+    ctx.R.check("C06.1", "OWN", ctx.fn("bits.utils.is_segwit_addr"), "no module-level state is written on these paths (results do not depend on earlier calls)", not hs,
+            "%s %s" % ((hs[0][0].qualname, hs[0][2]) if hs else ("", "")), line=hs[0][1].lineno if hs else None,
+            example="the same call repeated in one process after a call with other arguments / a failed call")
+
     check_parse_and_validate(ctx)
     check_decode_segwit(ctx)
     check_bech32_decode(ctx)
